@@ -217,6 +217,9 @@ class Explorer:
         self.npaths = 0
         self.feas_checks = 0
         self.proves_cache = {}
+        self.abs_cache = {}
+        self.keep = []
+        self.precise_feasibility = False
 
     def next_prefix(self):
         if not self.pending:
@@ -286,17 +289,78 @@ class Path:
         self.keep = []  # keeps z3 terms alive so that ids used as cache keys stay unique
 
     # -- decisions --------------------------------------------------------
+    # -- arithmetic abstraction for the inline (feasibility / entailment) queries -------------
+    # z3's sequence solver is slow even on trivial length constraints, so inline queries are
+    # first asked on a *weakening* of the path condition: every seq.len(t) becomes an integer
+    # constant (>= 0) and conjuncts that still mention sequences are dropped.  Weaker hypotheses
+    # are sound for both uses: "unsat" of the weakening implies unsat of the pc, and entailment
+    # from the weakening implies entailment from the pc.
+    def _abstract(self, f):
+        cache = self.explorer.abs_cache
+        key = f.get_id()
+        hit = cache.get(key)
+        if hit is not None:
+            return hit[0]
+        subs = {}
+        seen = set()
+        stack = [f]
+        has_seq = False
+        while stack:
+            t = stack.pop()
+            i = t.get_id()
+            if i in seen:
+                continue
+            seen.add(i)
+            if z3.is_quantifier(t):
+                has_seq = True  # keep it simple: quantified facts are not used by inline queries
+                continue
+            if z3.is_app(t):
+                if t.decl().kind() == z3.Z3_OP_SEQ_LENGTH:
+                    a = t.arg(0)
+                    subs[i] = (t, z3.Int(f'len!{a.get_id()}'))
+                    self.explorer.keep.append(a)
+                    continue
+                if t.sort().kind() == z3.Z3_SEQ_SORT or t.sort().kind() == z3.Z3_ARRAY_SORT:
+                    has_seq = True
+                    continue
+                stack.extend(t.children())
+        if has_seq:
+            g = None
+        else:
+            g = z3.substitute(f, *subs.values()) if subs else f
+            if subs:
+                g = z3.And(g, *[v >= 0 for (_, v) in subs.values()])
+        cache[key] = (g, f)
+        return g
+
+    def _abs_query(self, extra, timeout=800):
+        s = z3.Solver()
+        s.set('timeout', timeout)
+        for p in self.pc:
+            g = self._abstract(p)
+            if g is not None:
+                s.add(g)
+        s.add(extra)
+        return s.check()
+
     def feasible(self, c):
         if c is True:
             return True
+        import time as _t
+
         self.explorer.feas_checks += 1
+        ca = self._abstract(c) if isinstance(c, z3.ExprRef) else None
+        if ca is not None:
+            r = self._abs_query(ca)
+            if r == z3.unsat:
+                return False
+            if r == z3.sat and not self.explorer.precise_feasibility:
+                return True
         s = z3.Solver()
         s.set('timeout', self.explorer.feas_timeout_ms)
         for p in self.pc:
             s.add(p)
         s.add(c)
-        import time as _t
-
         t0 = _t.time()
         r = s.check()
         dt = _t.time() - t0
@@ -323,12 +387,17 @@ class Path:
         if key in cache:
             return cache[key]
         self.explorer.feas_checks += 1
-        s = z3.Solver()
-        s.set('timeout', 1000)
-        for p in self.pc:
-            s.add(p)
-        s.add(z3.Not(c))
-        r = s.check() == z3.unsat
+        r = False
+        ca = self._abstract(c)
+        if ca is not None and self._abs_query(z3.Not(ca)) == z3.unsat:
+            r = True
+        else:
+            s = z3.Solver()
+            s.set('timeout', 1000)
+            for p in self.pc:
+                s.add(p)
+            s.add(z3.Not(c))
+            r = s.check() == z3.unsat
         cache[key] = r
         return r
 
@@ -999,6 +1068,18 @@ class Path:
             return list(it)
         if isinstance(it, enum.EnumMeta):
             return list(it)
+        if isinstance(it, Sym) and it.k == 'bytes' and not self.quant:
+            n = conc_int(z3.Length(it.t))
+            if n is not None and n <= 64:
+                from .models import read_byte
+
+                return [read_byte(self, it.t, z3.IntVal(i)) for i in range(n)]
+        if isinstance(it, SymRange) and not self.quant and isinstance(it.start, int) and it.step == 1:
+            # a range whose bound provably fits a small interval is enumerated (complete, not bounded)
+            stop = zint(it.stop)
+            if self.proves(z3.And(stop >= it.start - 1, stop <= it.start + 32)):
+                k = self.decide([stop <= it.start] + [stop == it.start + j for j in range(1, 33)], 'small range')
+                return list(range(it.start, it.start + k))
         return None
 
     def as_symseq(self, it):
